@@ -1,20 +1,21 @@
 (* C08 - property theorems only; each is closed by a lemma of Snapshot.v / Silence.v / Fresh.v / Refuted.v.
    `sched` ranges over every interleaving of connection threads (one per connection: receive, dispatcher lock,
-   updateLock of each module of the snapshot, make_update, send_reply) and driver threads (updateLock, make_update, send_reply per listener) at their
+   set.add inside subscribe, updateLock of each module of the snapshot, make_update, send_reply, one set.discard per event
+   inside reset_connection) and driver threads (updateLock, make_update, send_reply per listener) at their
    synchronisation points, `nd` over every node (modules / parameters, exported or hidden), `cs` over every set of
    request scripts (activate / deactivate with global, module, parameter scope, valid or refused, *IDN?, close) on any
    number of connections, `us` over every set of update scripts on any number of driver threads.  A step of a thread
    that is not enabled (lock taken, script exhausted) leaves the state unchanged, so every list is a schedule. *)
 From Coq Require Import List Arith Bool.
 Import ListNotations.
-Require Import FV.Gen.C08 FV.C08.Model FV.C08.Lemmas FV.C08.Snapshot FV.C08.Silence FV.C08.Fresh FV.C08.Refuted.
+Require Import FV.Gen.C08 FV.C08.Model FV.C08.Lemmas FV.C08.Table FV.C08.Snapshot FV.C08.Silence FV.C08.Subscribe FV.C08.Fresh FV.C08.Refuted.
 
 (* obligations on the facts regenerated from /repo (Gen/C08.v): the code has the modelled shape *)
 Theorem C08_source_facts :
   request_under_dispatcher_lock = true /\ announce_under_update_lock = true /\ announce_update_shape = true /\
   broadcast_listeners_shape = true /\ activate_registers_before_snapshot = true /\
   snapshot_under_module_lock = true /\ broadcast_takes_no_dispatcher_lock = true /\
-  subscribe_shape = true /\ unsubscribe_shape = true /\ deactivate_shape = true /\ reset_shape = true /\
+  subscribe_shape = true /\ subscription_entries_never_removed = true /\ unsubscribe_shape = true /\ deactivate_shape = true /\ reset_shape = true /\
   handler_replies_after_dispatch = true.
 Proof. repeat split; reflexivity. Qed.
 
@@ -67,23 +68,57 @@ Theorem C08_deactivate_removes_its_scope : forall nd s c x sc p,
   end.
 Proof. exact deactivate_removes. Qed.
 
-(* an identification request and a disconnect remove every scope of the connection *)
+(* an identification request and a disconnect remove every scope of the connection.  reset_connection is a sequence of
+   steps now (one discard per event, then the generic subscribers; a disconnect runs it WITHOUT the dispatcher lock, so
+   other connections subscribe and unsubscribe meanwhile).  All schedules: when the reply of the identification request
+   is about to be handed over, and when the thread of a closed connection has finished, the connection listens to
+   nothing.  The step that receives the close marks the log and starts the loop over the sets bound at that moment. *)
 Theorem C08_ident_and_disconnect_remove_all :
-  (forall nd s c x p, c_pc (cth s c) = CAcq RIdn -> dlock s = None -> listens (cstep nd s (TC c, x)) c p = false) /\
-  (forall nd s c x rest p, c_pc (cth s c) = CRecv -> c_script (cth s c) = RClose :: rest ->
+  (forall nd cs us sched c,
+     let s := run nd cs us sched in
+     c_pc (cth s c) = CSendR RpIdent \/ c_pc (cth s c) = CDone -> forall p, listens s c p = false) /\
+  (forall nd s c x rest, c_pc (cth s c) = CRecv -> c_script (cth s c) = RClose :: rest ->
      let s' := cstep nd s (TC c, x) in
-     listens s' c p = false /\ c_pc (cth s' c) = CDone /\ logs s' c = logs s c ++ [EClose]).
-Proof. split; [exact ident_removes | exact close_removes]. Qed.
+     logs s' c = logs s c ++ [EClose] /\ c_pc (cth s' c) = CDisc (reset_targets s) KClose /\
+     forall p, listens s' c p = listens s c p).
+Proof. split; [exact reset_removes_all | exact close_starts_reset]. Qed.
+
+(* a disconnect of one connection inside the activate of another one: Dispatcher.subscribe is two steps (lookup-or-create
+   of the per-event set, then add) and remove_connection runs in the thread of the closing connection without the
+   dispatcher lock.  All schedules:
+   (1) the table is well formed: set identities are distinct and below the allocation counter, and the set object a
+       thread holds between the two halves of subscribe is the one bound to its event;
+   (2) entries of the table are never removed or rebound - for every continuation the bound set objects of now are still
+       bound, to the same events, at the same places (only their members change);
+   (3) hence, while the initial updates are sent and when the 'active' reply is about to be handed over, the connection
+       listens to every parameter of the scope - whatever disconnects, identifications and (de)activations of other
+       connections were interleaved;
+   (4) and no step of another thread (connection or driver) changes what it listens to.
+   With C08_broadcast_selects_all_listeners and C08_every_listener_receives: every later update in scope reaches it. *)
+Theorem C08_subscribe_survives_concurrent_disconnect : forall nd cs us sched,
+  let s := run nd cs us sched in
+  tbl_wf s /\
+  (forall sched', exists ext, shape (run nd cs us (sched ++ sched')) = shape s ++ ext) /\
+  (forall c sc, in_scope (c_pc (cth s c)) = Some sc -> forall p, covers sc p = true -> listens s c p = true) /\
+  (forall c st, fst st <> TC c -> forall p, listens (cstep nd s st) c p = listens s c p).
+Proof.
+  intros nd cs us sched s. split; [apply wf_run |]. split; [| split].
+  - intros sched'. unfold s, run. rewrite run_from_app. apply run_shape_prefix.
+  - intros c sc. apply subscribed_when_active.
+  - intros c st N. apply (listening_persists nd s st c N).
+Qed.
 
 (* FULL STATEMENT (refuted, see C08_refuted_late_update): once connection c does not listen to p any more and has no
    activate request covering p left, no update of p is delivered to it.
    Proved with the exact guard `~ uflight s c p`: no broadcast of p that selected c before is still in flight.
-   From every such state, for every continuation schedule, the updates of p in the log of c stay what they are. *)
+   From every such state with a well-formed table (every reachable state is, C08_subscribe_survives_concurrent_disconnect),
+   for every continuation schedule, the updates of p in the log of c stay what they are. *)
 Theorem C08_silent_after_scope_ended_except_late_update : forall nd s sched c p,
+  tbl_wf s ->
   listens s c p = false -> ~ cflight s c p -> ~ wants s c p ->
   ~ uflight s c p ->
   updates_of p (logs (run_from nd s sched) c) = updates_of p (logs s c).
-Proof. intros nd s sched c p L C W U. apply (silent_forever nd sched s c p). repeat split; auto. Qed.
+Proof. intros nd s sched c p WF L C W U. apply (silent_forever nd sched s c p); auto. repeat split; auto. Qed.
 
 (* ALL schedules (no exception any more: the stale-snapshot defect was repaired by c1c8ab8, the initial updates of a
    module are built and sent under its updateLock): once no broadcast and no snapshot of the connection is in progress,
@@ -128,6 +163,19 @@ Theorem C08_refuted_late_update_after_disconnect :
     logs s c = [EReq (RAct (SP 0 0) false); EUpd p 0; ERep (RpActive (SP 0 0)); EClose; EUpd p 1].
 Proof. exact refuted_late_update_after_close. Qed.
 
+(* NOT the code: the variant of reset_connection that deletes the entry of a set that has become empty
+   (`if not conns: del self._subscriptions[evt]`, model flag del = true).  Connection 0, the only subscriber of
+   module 0, disconnects between the two halves of the subscribe of connection 1: connection 1 is added to the orphaned
+   set object, gets its snapshot and the 'active' reply, and the later update (cache 1) is never delivered. *)
+Theorem C08_refuted_subscribe_lost_if_empty_entries_are_deleted :
+  exists nd cs us sched c p,
+    all_enabled_gen true nd (init cs us) sched = true /\
+    let s := run_from_gen true nd (init cs us) sched in
+    logs s c = [EReq (RAct (SM 0) false); EUpd p 0; ERep (RpActive (SM 0))] /\
+    c_pc (cth s c) = CRecv /\ c_script (cth s c) = [] /\
+    cache s p = 1 /\ u_pc (uth s 0) = UDone /\ listens s c p = false /\ tbl s = [].
+Proof. exact refuted_variant_loses_subscription. Qed.
+
 (* non-vacuity: two connections (global / one parameter), one driver thread; sequential schedule: both snapshots, the
    later update reaches both, the deactivation of connection 0 leaves connection 1 listening and fresh *)
 Example C08_demo :
@@ -135,7 +183,7 @@ Example C08_demo :
   let cs := [[RAct SG false; RDeact SG false]; [RAct (SP 0 0) false]] in
   let us := [[((0, 0), 5); ((0, 1), 6)]] in
   let c0 := (TC 0, 0) in let c1 := (TC 1, 0) in
-  let sched := [c0; c0; c0; c0; c0; c0; c0; c1; c1; c1; c1; c1; c1; c1;
+  let sched := [c0; c0; c0; c0; c0; c0; c0; c1; c1; c1; c1; c1; c1; c1; c1;
                 (TU 0, 0); (TU 0, 0); (TU 0, 0); (TU 0, 1); (TU 0, 0); (TU 0, 0); c0; c0; c0] in
   let s := run nd cs us sched in
   all_enabled nd (init cs us) sched = true /\
@@ -145,6 +193,15 @@ Example C08_demo :
   bcasts s = [((0, 0), 5, [1; 0])].
 Proof. vm_compute. repeat split; reflexivity. Qed.
 
+(* non-vacuity of C08_subscribe_survives_concurrent_disconnect: the interleaving of the refutation above on the model of
+   the code - connection 1 keeps its subscription and receives the later update *)
+Example C08_demo_subscribe_race :
+  let sched := lost_sched ++ [(TU 0, 1)] in
+  let s := run one [[RAct (SM 0) false; RClose]; [RAct (SM 0) false]] [[(P00, 1)]] sched in
+  all_enabled one (init [[RAct (SM 0) false; RClose]; [RAct (SM 0) false]] [[(P00, 1)]]) sched = true /\
+  logs s 1 = [EReq (RAct (SM 0) false); EUpd P00 0; ERep (RpActive (SM 0)); EUpd P00 1] /\ listens s 1 P00 = true.
+Proof. exact code_keeps_subscription. Qed.
+
 Print Assumptions C08_source_facts.
 Print Assumptions C08_snapshot_complete.
 Print Assumptions C08_broadcast_selects_all_listeners.
@@ -152,8 +209,10 @@ Print Assumptions C08_every_listener_receives.
 Print Assumptions C08_scope_isolation.
 Print Assumptions C08_deactivate_removes_its_scope.
 Print Assumptions C08_ident_and_disconnect_remove_all.
+Print Assumptions C08_subscribe_survives_concurrent_disconnect.
 Print Assumptions C08_silent_after_scope_ended_except_late_update.
 Print Assumptions C08_quiescent_fresh.
 Print Assumptions C08_update_lock_discipline.
 Print Assumptions C08_refuted_late_update.
 Print Assumptions C08_refuted_late_update_after_disconnect.
+Print Assumptions C08_refuted_subscribe_lost_if_empty_entries_are_deleted.
